@@ -98,8 +98,18 @@ def run(pid, tier, seed):
             f.write(b"ab")
         sets.append((d4, ["empty.log", "tiny.log", "no-such-file.log"], []))
         i4 = len(sets) - 1
+        # an event log and a journal in compressed form (read through a temporary file) beside a text log
+        d5 = os.path.join(sc, "s5")
+        os.makedirs(d5)
+        import shutil
+        shutil.copyfile(os.path.join(common.REPO, "logs/programs/evtx/Microsoft-Windows-Kernel-PnP%4Configuration.evtx.gz"), os.path.join(d5, "k.evtx.gz"))
+        shutil.copyfile(os.path.join(common.REPO, "logs/programs/journal/Ubuntu22-user-1000x3.journal.xz"), os.path.join(d5, "u.journal.xz"))
+        with open(os.path.join(d5, "t.log"), "wb") as f:
+            f.write(b"2023-03-10T03:49:43.561000+00:00 src=T idx=0\n2023-04-02T07:06:50+00:00 src=T idx=1\n")
+        sets.append((d5, ["t.log", "k.evtx.gz", "u.journal.xz"], []))
+        i5 = len(sets) - 1
         def kind_of(name):
-            return "event" if name.endswith(".evtx") else "entry" if name.endswith(".journal") else "record" if "tmp" in name else "text"
+            return "event" if ".evtx" in name else "entry" if ".journal" in name else "record" if "tmp" in name else "text"
         kinds_of = {si: {w: kind_of(n_) for w, n_ in enumerate(files)} for si, (_d, files, _w) in enumerate(sets)}
         optsets = [[], ["-n"], ["-p", "-w", "-u"], ["-n", "-u", "-d", "%H:%M:%S%.6f", "--prepend-separator=|"], ["--separator=--\\n"],
                    ["-n", "-l", "--separator=\\t", "--color", "always"], ["-w", "-n", "-z", "+05:30", "--separator=\\n"],
@@ -109,6 +119,7 @@ def run(pid, tier, seed):
                    # (windows that leave exactly one message to a file, and to the whole run)
                    2: [[], ["-b", "2023-04-02T07:06:45+00:00"]],
                    3: [[], ["-b", "2023-04-02T07:07:00.789680+00:00"]],
+                   i5: [[], ["-a", "2023-03-10T03:49:43.700+00:00"]],
                    i4: [[], ["-a", "2000-01-01T00:00:00+00:00", "-b", "2000-01-02T03:04:05+00:00"], ["-a", "2000-01-01T00:00:00+00:00"],
                         ["-b", "2031-05-06T07:08:09+00:00"]],
                    i3: [[], ["-a", gen.fmt_ts(gen.BASE + 2, 0, 0, 0)], ["-a", "2030-01-01"],
